@@ -42,7 +42,8 @@ def inst_line(g, addr, mnems=MNEMS):
     elif m in ("call", "jmp", "je", "jne") and g.chance(0.7):
         line["ops"] = [operand(g, ("target",))]
         if g.chance(0.8):
-            line["annot"] = g.pick(["main", "f+0x10", "AesExpandKey+0x33", "_init", ".L2"])
+            line["annot"] = g.pick(["main", "f+0x10", "AesExpandKey+0x33", "_init", ".L2", "operator new(unsigned long)+0x10",
+                                    "std::vector<int>::size() const+0x4", "foo#bar", "a,b", "x y"])
     else:
         line["ops"] = [operand(g) for _ in range(g.pick([1, 2, 2, 3]))]
     if line["ops"]:
@@ -75,7 +76,7 @@ def listing(g, n, decorate=True):
             lines.append({"k": "cont", "indent": 2, "addr": "%x" % addr, "bytes": "".join("%02x" % g.int(0, 255) for _ in range(g.int(1, 3)))})
             addr += 1
         if decorate and g.chance(0.07):
-            lines += [{"k": "blank"}, {"k": "label", "addr": "%016x" % addr, "name": g.pick(["g", "h", "k.part.0"])}]
+            lines += [{"k": "blank"}, {"k": "label", "addr": "%016x" % addr, "name": g.pick(["g", "h", "k.part.0", "operator+(a const&)", "_ZN3FooC1Ev", "x y", "f@plt"])}]
         if decorate and g.chance(0.03):
             lines.append({"k": "dots"})
     # listings of relocatable objects restart their addresses per section: exactly repeated lines occur
@@ -107,9 +108,9 @@ def presentation_edit(g, lines):
         if g.chance(0.5):
             l["pad"] = g.int(0, 30)
         if g.chance(0.4) and l["ops"]:
-            l["annot"] = g.pick([None, "sym", "other+0x4"])
+            l["annot"] = g.pick([None, "sym", "other+0x4", "ns::f(int, char*)+0x8", "t<a>::g()", "h # not a comment"])
         if g.chance(0.4):
-            l["comment"] = g.pick([None, "a comment", "0x1234 <z>"])
+            l["comment"] = g.pick([None, "a comment", "0x1234 <z>", "401000 <k+0x10>, x", "# nested # hashes"])
         if g.chance(0.3):
             l["trail"] = g.int(0, 7)
         if g.chance(0.15):
